@@ -184,7 +184,20 @@ func build(tn string, a assign) codecPDU {
 				fv.SetBytes(append([]byte{}, val.b...))
 			}
 		case "FH":
-			fv.SetString(hex.EncodeToString(val.b))
+			// the struct holds the id as hexadecimal text, or - what encoders also take - as the raw octets themselves:
+			// the raw form is used when the octets are all ASCII digits / hexadecimal letters
+			// (smgp30.Deliver and SubmitResp take both forms; DeliverResp reads its member as hexadecimal text only)
+			raw := len(val.b) > 0 && (tn == "smgp30.Deliver" || tn == "smgp30.SubmitResp")
+			for _, c := range val.b {
+				if !(c >= '0' && c <= '9' || c >= 'a' && c <= 'f' || c >= 'A' && c <= 'F') {
+					raw = false
+				}
+			}
+			if raw {
+				fv.SetString(string(val.b))
+			} else {
+				fv.SetString(hex.EncodeToString(val.b))
+			}
 		case "L":
 			l := make([]string, len(val.list))
 			for i, s := range val.list {
@@ -226,10 +239,10 @@ func project(tn string, obj codecPDU) map[string]interface{} {
 				out[f.N] = B(fv.Bytes())
 			}
 		case "FH":
-			if d, err := hex.DecodeString(fv.String()); err == nil {
+			if d, err := hex.DecodeString(fv.String()); err == nil && len(fv.String()) == 2*f.W {
 				out[f.N] = B(d)
 			} else {
-				out[f.N] = S(fv.String())
+				out[f.N] = B([]byte(fv.String())) // the raw octets
 			}
 		case "L":
 			l := make([]interface{}, 0)
